@@ -380,6 +380,8 @@ def run_miri(prop, stage, seed, tier):
     flags = stage.miri_flags or "-Zmiri-disable-isolation"
     env = dict(BASE_ENV)
     env.update(stage_env(stage))
+    if stage.threads is not None:
+        flags += " -Zmiri-env-set=RAYON_NUM_THREADS=%d" % stage.threads
     env["MIRIFLAGS"] = flags
     env["RUSTFLAGS"] = CFG
     env["CARGO_TARGET_DIR"] = target_dir("miri")
